@@ -733,6 +733,8 @@ func (w *world) layoutOf(pkg, fn string) ([]fld, bool) {
 			} else {
 				out = append(out, fld{Kind: "bytes", Val: w.exprText(c.Args[0]), Guard: guard})
 			}
+		case "readBytesControl":
+			out = append(out, fld{Kind: "bytes", Val: w.exprText(c.Args[1]), Guard: guard})
 		case "readRelPathControl":
 			out = append(out, fld{Kind: "relpath", Width: 2, Guard: guard})
 		case "validateRelPath":
@@ -773,7 +775,17 @@ func (w *world) layoutOf(pkg, fn string) ([]fld, bool) {
 				}
 				// `if err != nil {..}`, `if msg.OK {..}`, limit checks: note limit checks
 				if strings.Contains(cond, ">") {
-					out = append(out, fld{Kind: "limit", Val: cond})
+					// a bound that REJECTS (the body returns); clamps of local hints are not wire-level limits
+					rejects := false
+					ast.Inspect(x.Body, func(n ast.Node) bool {
+						if _, ok := n.(*ast.ReturnStmt); ok {
+							rejects = true
+						}
+						return true
+					})
+					if rejects {
+						out = append(out, fld{Kind: "limit", Val: cond})
+					}
 				}
 			case *ast.ForStmt:
 				out = append(out, fld{Kind: "loop", Val: w.exprText(x.Cond)})
